@@ -11,6 +11,7 @@ import Driver.C09
 import Driver.C20
 import Driver.C16
 import Driver.C12
+import Driver.Crash
 /-! Line-protocol driver. Usage: `drv <property>`; stdin: `op args… | impl-output`;
     stdout: one `MISMATCH`/`MONITOR` line per problem and a final `DONE` summary with coverage tags. -/
 open Drv
@@ -99,6 +100,7 @@ def main (args : List String) : IO UInt32 := do
   | ["C16"] => finish (← loopStateless Drv.C16.step h {})
   | ["C12"] => finish (← loopStateful (Drv.C12.step true) h {} {})
   | ["C12", "ideal"] => finish (← loopStateful (Drv.C12.step false) h {} {})
+  | ["crash"] => finish (← loopStateful Drv.Crash.step h {} {})
   | ["inrange"] => finish (← loopStateless Drv.Store.inRangeStep h {})
   | ["store", prop] => finish (← loopStateful (Drv.Store.step prop) h {} {})
   | _ => IO.eprintln "usage: drv <property>"; return 2
